@@ -122,6 +122,17 @@ pub struct Sc {
     pub final_newline: bool,
     pub seam: Seam,
     pub script: Vec<ReadStep>,
+    /// a nested read: at the start of the outer reader's `at_call`-th fill_buf /
+    /// read the reader itself parses another (well-formed) index with the
+    /// library, on the same thread, while the outer read is in flight
+    #[serde(default)]
+    pub nested: Option<Box<NestedRead>>,
+}
+
+#[derive(Clone, Debug, Serialize, Deserialize)]
+pub struct NestedRead {
+    pub at_call: u64,
+    pub recs: Vec<Rec>,
 }
 
 fn join_items(items: &[String], seps: &[String]) -> String {
@@ -714,28 +725,92 @@ impl Property for C16 {
                 Seam::Buffered(*rng.pick(&[1usize, 2, 3, 16, 100, 1024, 8192]))
             },
             script: Vec::new(),
+            nested: None,
         };
         sc.script = gen_script(rng, &sc);
+        if rng.chance(1, 6) {
+            // a nested read of a small well-formed index from inside the outer reader
+            let k = rng.urange(1, 3);
+            let mut recs: Vec<Rec> = Vec::new();
+            for _ in 0..k {
+                let mut r = gen_rec(rng, recs.last());
+                // well-formed only: no content faults in the nested document
+                r.lines.retain(|l| !matches!(l.item, Item::BadDepends { .. } | Item::BadLocation { .. }));
+                recs.push(r);
+            }
+            sc.nested = Some(Box::new(NestedRead {
+                at_call: rng.urange(1, 6) as u64,
+                recs,
+            }));
+        }
         sc
     }
 
     fn execute(&self, sc: &Sc, ctx: &mut Ctx) -> Outcome {
         let rend = render(sc);
         let bytes = rend.bytes.clone();
-        let work = Work::start();
+        let inner_result: std::rc::Rc<std::cell::RefCell<Option<std::io::Result<Vec<ScanIndex>>>>> = Default::default();
+        let hook = |slot: std::rc::Rc<std::cell::RefCell<Option<std::io::Result<Vec<ScanIndex>>>>>, recs: &Vec<Rec>| -> Box<dyn FnMut()> {
+            let inner = render(&Sc {
+                orphan: vec![],
+                recs: recs.clone(),
+                final_newline: true,
+                seam: Seam::Direct,
+                script: vec![],
+                nested: None,
+            })
+            .bytes;
+            Box::new(move || {
+                *slot.borrow_mut() = Some(ScanIndex::from_reader(&inner[..]));
+            })
+        };
+        let mut the_hook = sc.nested.as_ref().map(|n| (n.at_call, hook(inner_result.clone(), &n.recs)));
+        let bytes_in = bytes.clone();
+        let work;
         let (res, log) = match sc.seam {
             Seam::Direct => {
-                let r = SimBufReader::new(bytes.clone(), sc.script.clone());
+                let mut r = SimBufReader::new(bytes_in, sc.script.clone());
+                if let Some((at, h)) = the_hook.take() {
+                    r = r.with_hook(at, h);
+                }
                 let log = r.log();
+                work = Work::start();
                 (ScanIndex::from_reader(r), log)
             }
             Seam::Buffered(c) => {
-                let r = SimReader::new(bytes.clone(), sc.script.clone());
+                let mut r = SimReader::new(bytes_in, sc.script.clone());
+                if let Some((at, h)) = the_hook.take() {
+                    r = r.with_hook(at, h);
+                }
                 let log = r.log();
+                work = Work::start();
                 (ScanIndex::from_reader(BufReader::with_capacity(c, r)), log)
             }
         };
         work.stop(ctx, bytes.len());
+        if let Some(n) = &sc.nested {
+            if let Some(got) = inner_result.borrow().as_ref() {
+                ctx.probe("nested-read-ran");
+                ctx.fault("nested_read_in_reader");
+                match got {
+                    Err(e) => fail!("nested-read-wrong", "a well-formed index read from inside the outer read's reader failed: {}", e),
+                    Ok(list) => {
+                        ensure!(
+                            list.len() == n.recs.len(),
+                            "nested-read-wrong",
+                            "a nested read of {} records returned {}",
+                            n.recs.len(),
+                            list.len()
+                        );
+                        for (i, (g, r)) in list.iter().zip(n.recs.iter()).enumerate() {
+                            if let Err(m) = compare(g, &expect_of(r)) {
+                                fail!("nested-read-wrong", "nested read, record {}: {}", i, m);
+                            }
+                        }
+                    }
+                }
+            }
+        }
         let log = log.borrow();
         log.absorb(ctx, "fill_buf");
         // probes
